@@ -45,7 +45,12 @@ def finalWith (mul : WType → PType → Res) (prop : WType → Res) : WType →
 /-- `C(...).multiply(wavefront)` for a public class: a custom `multiply` that references names which do not exist
 raises AttributeError before anything else; otherwise `Plane.multiply` (table) followed by the override's forced type -/
 def classMul (c : PlaneClass) (w : WType) : Res :=
-  if classCustomMul c && !(classMissing c).isEmpty then .refused .attributeError
+  if classCustomMul c then
+    -- a body that does not go through Plane.multiply: names that do not exist raise AttributeError before anything else;
+    -- otherwise the structural rule read off its return value applies (type kept, no table look-up) or nothing is known
+    if !(classMissing c).isEmpty then .refused .attributeError
+    else if classCustomKeepsType c then .ok w
+    else .refused .otherError
   else match codeMul w (classPtype c) with
     | .ok w' => .ok ((classForce c).getD w')
     | .refused e => .refused e
